@@ -287,6 +287,30 @@ func c12InSelect(fn string) bool {
 	return false
 }
 
+// c12BlockedInChanOp reports whether a goroutine whose stack contains `fn` is blocked in a plain channel
+// send or receive (not a select): the round timer goroutine only ever waits in selects that include its
+// context, so this state means it is stuck for good on a channel nobody serves.
+func c12BlockedInChanOp(fn string) string {
+	buf := make([]byte, 1<<16)
+	for {
+		n := runtime.Stack(buf, true)
+		if n < len(buf) {
+			buf = buf[:n]
+			break
+		}
+		buf = make([]byte, 2*len(buf))
+	}
+	for _, g := range bytes.Split(buf, []byte("\n\n")) {
+		if bytes.Contains(g, []byte(fn)) {
+			nl := bytes.IndexByte(g, '\n')
+			if nl > 0 && (bytes.Contains(g[:nl], []byte("[chan send")) || bytes.Contains(g[:nl], []byte("[chan receive"))) {
+				return string(g[:nl])
+			}
+		}
+	}
+	return ""
+}
+
 func c12WaitInSelect(fn string, d time.Duration) bool {
 	deadline := time.Now().Add(d)
 	for !c12InSelect(fn) {
@@ -711,6 +735,15 @@ func c12Scripts(t *testing.T, out *vc.Out, log *c12Logger, seed int64) {
 					break
 				}
 				if !exited {
+					if st := c12BlockedInChanOp(c12BgFn); st != "" {
+						// evidence from the real goroutine: it is parked in a channel operation without its context,
+						// so no later start request can ever be served
+						out.Emit(vc.M{"kind": "violation", "predicate": "NoLostStart", "class": "timer-goroutine-wedged", "k": 0,
+							"script": sc.Idx, "rep": rep, "variant": variant,
+							"detail": "after this schedule the round timer goroutine is blocked for good (" + st + ") and did not return when its context was cancelled: every later timer request is lost"})
+						out.Flush()
+						t.Fatalf("background goroutine wedged")
+					}
 					out.Emit(vc.M{"kind": "error", "script": sc.Idx, "rep": rep, "variant": variant,
 						"why": "background goroutine did not exit after its context was cancelled"})
 					out.Flush()
